@@ -65,11 +65,15 @@ func StartTLS(cfg *tls.Config) StreamFeature {
 
 			var rw io.ReadWriter
 			if (state & Received) == Received {
-				fmt.Fprint(conn, `<proceed xmlns='urn:ietf:params:xml:ns:xmpp-tls'/>`)
+				if _, err := fmt.Fprint(conn, `<proceed xmlns='urn:ietf:params:xml:ns:xmpp-tls'/>`); err != nil {
+					return 0, nil, err
+				}
 				rw = tls.Server(conn, cfg)
 			} else {
 				// Select starttls for negotiation.
-				fmt.Fprint(conn, `<starttls xmlns='urn:ietf:params:xml:ns:xmpp-tls'/>`)
+				if _, err := fmt.Fprint(conn, `<starttls xmlns='urn:ietf:params:xml:ns:xmpp-tls'/>`); err != nil {
+					return 0, nil, err
+				}
 
 				// Receive a <proceed/> or <failure/> response from the server.
 				t, err := d.Token()
